@@ -323,6 +323,11 @@ func CanonMsg(m *dns.Msg) *Canon {
 
 // Full renders everything (used for equality of two implementations).
 func (c *Canon) Full(withExtraAddrs bool) string {
+	if c.TC {
+		// which records survive a truncation depends on the (unspecified) order of values under one key;
+		// a truncated reply is compared by its header only, the size rule itself is C13's / C20's
+		return fmt.Sprintf("Q %s\nrcode=%d aa=%v tc=true (sections not compared)\nOPT %v %s\nECS %v %s scope=%d", c.Question, c.Rcode, c.AA, c.HasOPT, c.OPT, c.HasECS, c.ECS, c.ECSScope)
+	}
 	extra := c.Extra
 	if !withExtraAddrs {
 		// additional addresses are randomised (max one per family): keep owner+type only
